@@ -416,3 +416,392 @@ Theorem cap_none_is_unbounded s :
   (b32_decode_cap None s = b32_decode s /\ b32_push_all_cap None s = b32_push_all s) /\
   (b16_decode_cap None s = b16_decode s /\ b16_push_all_cap None s = b16_push_all s).
 Proof. exact (conj (cap_none_64 s) (conj (cap_none_32 s) (cap_none_16 s))). Qed.
+
+(* ------------------------------------------------------------------ *)
+(* `decode` into a bounded builder: accepted iff the text is accepted by the
+   unbounded `decode` and the octets fit; ShortBuf if they do not fit *)
+
+Definition lenN (l : list N) : N := N.of_nat (length l).
+Lemma lenN_app a b : lenN (a ++ b) = lenN a + lenN b.
+Proof. unfold lenN. rewrite app_length. lia. Qed.
+Lemma fits_spec c l : fits (Some c) l = (lenN l + 1 <=? c).
+Proof. reflexivity. Qed.
+
+Section CapSim.
+  Variable D : Type.
+  Variables push_u push_c : D -> N -> outcome (D * option N).
+  Variables fin_u fin_c : D -> outcome (list N).
+  Variable inv : D -> Prop.
+  Variable tgt : D -> target.
+  Variable c : N.
+  Hypothesis Hpush : forall d ch acc, inv d -> tgt d = Ok acc ->
+    exists du res, push_u d ch = Ok (du, res) /\
+      match res with
+      | None => inv du /\ exists accu, tgt du = Ok accu /\ lenN acc <= lenN accu /\
+                (lenN acc <= c ->
+                   if lenN accu <=? c then push_c d ch = Ok (du, None)
+                   else exists d', push_c d ch = Ok (d', Some E_SHORTBUF))
+      | Some e => lenN acc <= c -> exists d' e', push_c d ch = Ok (d', Some e')
+      end.
+  Hypothesis Hfin : forall d acc, inv d -> tgt d = Ok acc ->
+    match fin_u d with
+    | Ok bs => lenN acc <= lenN bs /\
+               (lenN acc <= c -> if lenN bs <=? c then fin_c d = Ok bs else fin_c d = Err E_SHORTBUF)
+    | Err e => lenN acc <= c -> exists e', fin_c d = Err e'
+    | _ => False
+    end.
+
+  Lemma cap_mono s : forall d acc, inv d -> tgt d = Ok acc ->
+    match decode_from_g D push_u fin_u d s with
+    | Ok bs => lenN acc <= lenN bs
+    | Err _ => True
+    | _ => False
+    end.
+  Proof.
+    induction s as [|ch r IH]; intros d acc Hi Ht; cbn [decode_from_g].
+    - pose proof (Hfin d acc Hi Ht) as F. destruct (fin_u d); try contradiction; [apply F|exact I].
+    - destruct (Hpush d ch acc Hi Ht) as (du & res & E & R). rewrite E.
+      destruct res as [e|]; [exact I|].
+      destruct R as (Hi' & accu & Ht' & L & _).
+      pose proof (IH du accu Hi' Ht') as M. destruct (decode_from_g D push_u fin_u du r); try contradiction; [lia|exact I].
+  Qed.
+
+  Lemma cap_sim s : forall d acc, inv d -> tgt d = Ok acc -> lenN acc <= c ->
+    match decode_from_g D push_u fin_u d s with
+    | Ok bs => if lenN bs <=? c then decode_from_g D push_c fin_c d s = Ok bs
+               else decode_from_g D push_c fin_c d s = Err E_SHORTBUF
+    | Err e => exists e', decode_from_g D push_c fin_c d s = Err e'
+    | _ => False
+    end.
+  Proof.
+    induction s as [|ch r IH]; intros d acc Hi Ht Hc; cbn [decode_from_g].
+    - pose proof (Hfin d acc Hi Ht) as F. destruct (fin_u d); try contradiction; [apply F, Hc|apply F, Hc].
+    - destruct (Hpush d ch acc Hi Ht) as (du & res & E & R). rewrite E.
+      destruct res as [e|].
+      + destruct (R Hc) as (d' & e' & ->). eauto.
+      + destruct R as (Hi' & accu & Ht' & L & Q). specialize (Q Hc).
+        destruct (N.leb_spec (lenN accu) c) as [Le|Gt].
+        * rewrite Q. exact (IH du accu Hi' Ht' Le).
+        * destruct Q as [d' ->].
+          pose proof (cap_mono r du accu Hi' Ht') as M.
+          destruct (decode_from_g D push_u fin_u du r) as [bs|e| |]; try contradiction.
+          -- destruct (N.leb_spec (lenN bs) c); [lia|reflexivity].
+          -- eauto.
+  Qed.
+End CapSim.
+
+Lemma fold_append_ok l : forall acc, fold_left append l (Ok acc) = Ok (acc ++ l).
+Proof.
+  induction l as [|v r IH]; intros acc; cbn [fold_left append]; [rewrite app_nil_r; reflexivity|].
+  rewrite IH, <- app_assoc. reflexivity.
+Qed.
+Lemma fold_append_cap_err cap l e : fold_left (append_cap cap) l (Err e) = Err e.
+Proof. induction l as [|v r IH]; [reflexivity|exact IH]. Qed.
+Lemma fold_append_cap_some c l : forall acc, lenN acc <= c ->
+  fold_left (append_cap (Some c)) l (Ok acc) =
+  if lenN acc + lenN l <=? c then Ok (acc ++ l) else Err E_SHORTBUF.
+Proof.
+  induction l as [|v r IH]; intros acc H.
+  - cbn [fold_left]. rewrite app_nil_r. unfold lenN at 2. cbn [length N.of_nat].
+    destruct (N.leb_spec (lenN acc + 0) c); [reflexivity|lia].
+  - cbn [fold_left append_cap]. rewrite fits_spec.
+    destruct (N.leb_spec (lenN acc + 1) c) as [F|NF].
+    + rewrite IH by (rewrite lenN_app; unfold lenN at 2; cbn; lia).
+      rewrite lenN_app, <- app_assoc. unfold lenN at 2 5. cbn [length app].
+      destruct (N.leb_spec (lenN acc + N.of_nat 1 + lenN r) c);
+        destruct (N.leb_spec (lenN acc + N.of_nat (S (length r))) c); try reflexivity; unfold lenN in *; lia.
+    + rewrite fold_append_cap_err. unfold lenN at 2. cbn [length].
+      destruct (N.leb_spec (lenN acc + N.of_nat (S (length r))) c); [lia|reflexivity].
+Qed.
+
+(* ---- Base16 ---- *)
+Lemma b16_cap_push c d ch acc : True -> d16_target d = Ok acc ->
+  exists du res, b16_push d ch = Ok (du, res) /\
+    match res with
+    | None => True /\ exists accu, d16_target du = Ok accu /\ lenN acc <= lenN accu /\
+              (lenN acc <= c ->
+                 if lenN accu <=? c then b16_push_cap (Some c) d ch = Ok (du, None)
+                 else exists d', b16_push_cap (Some c) d ch = Ok (d', Some E_SHORTBUF))
+    | Some e => lenN acc <= c -> exists d' e', b16_push_cap (Some c) d ch = Ok (d', Some e')
+    end.
+Proof.
+  intros _ T. destruct d as [b t]. cbn [d16_target] in T. subst t.
+  rewrite b16_push_sem. unfold b16_push_cap. change b16_radix with 16. rewrite to_digit16_is_val16.
+  cbn [bind d16_buf d16_target]. destruct (val16 ch) as [v|].
+  2:{ eexists _, _. split; [reflexivity|]. intros _. eexists _, _. reflexivity. }
+  destruct b as [u|]; cbv zeta; cbn [d16_target append append_cap target_err].
+  - eexists _, _. split; [reflexivity|]. split; [exact I|].
+    eexists. split; [reflexivity|]. split; [rewrite lenN_app; lia|]. intros Hc.
+    rewrite fits_spec, lenN_app. change (lenN [N.lor u v]) with 1.
+    destruct (N.leb_spec (lenN acc + 1) c); [reflexivity|]. eexists. reflexivity.
+  - eexists _, _. split; [reflexivity|]. split; [exact I|].
+    eexists. split; [reflexivity|]. split; [lia|]. intros Hc.
+    destruct (N.leb_spec (lenN acc) c); [reflexivity|lia].
+Qed.
+
+Lemma b16_cap_fin c d acc : True -> d16_target d = Ok acc ->
+  match b16_finalize d with
+  | Ok bs => lenN acc <= lenN bs /\
+             (lenN acc <= c -> if lenN bs <=? c then b16_finalize d = Ok bs else b16_finalize d = Err E_SHORTBUF)
+  | Err e => lenN acc <= c -> exists e', b16_finalize d = Err e'
+  | _ => False
+  end.
+Proof.
+  intros _ T. destruct d as [b t]. cbn [d16_target] in T. subst t. unfold b16_finalize. cbn [d16_buf d16_target].
+  destruct b; [eauto|]. split; [lia|]. intros Hc. destruct (N.leb_spec (lenN acc) c); [reflexivity|lia].
+Qed.
+
+Theorem b16_decode_cap_spec c s :
+  match b16_decode s with
+  | Ok bs => if lenN bs <=? c then b16_decode_cap (Some c) s = Ok bs
+             else b16_decode_cap (Some c) s = Err E_SHORTBUF
+  | Err e => exists e', b16_decode_cap (Some c) s = Err e'
+  | _ => False
+  end.
+Proof.
+  unfold b16_decode, b16_decode_cap. rewrite <- b16_decode_from_g.
+  apply (cap_sim dec16 b16_push (b16_push_cap (Some c)) b16_finalize b16_finalize (fun _ => True) d16_target c
+           (b16_cap_push c) (b16_cap_fin c) s b16_new []); [exact I|reflexivity|unfold lenN; cbn; lia].
+Qed.
+
+(* ---- Base32hex ---- *)
+Definition b32_cont_cap (cap : option N) (d : dec32) (v : N) : outcome (dec32 * option N) :=
+  do buf' <- buf8_set (d32_buf d) (d32_next d) v;
+  let next' := d32_next d + 1 in
+  let d1 :=
+    if next' =? b32_group
+    then mk32 buf' 0 (fold_left (append_cap cap) (b32_octets buf') (d32_target d))
+    else mk32 buf' next' (d32_target d) in
+  Ok (d1, target_err (d32_target d1)).
+
+Lemma b32_push_cap_sem cap d ch :
+  b32_push_cap cap d ch =
+  match val32 ch with
+  | None => Ok (mk32 (d32_buf d) (d32_next d) (Err (E_illegal ch)), Some (E_illegal ch))
+  | Some v => b32_cont_cap cap d v
+  end.
+Proof.
+  unfold b32_push_cap. cbv [b32_ascii_max].
+  destruct (N.ltb_spec 127 ch) as [G|L].
+  - rewrite val32_none_high by exact G. reflexivity.
+  - destruct (dec_tab32_ok ch) as (v & E1 & E2); [lia|].
+    rewrite E1. cbn [bind]. rewrite <- E2.
+    destruct (v =? b32_illegal_val); reflexivity.
+Qed.
+
+Lemma b32_cap_push c d ch acc : d32_next d < 8 -> d32_target d = Ok acc ->
+  exists du res, b32_push d ch = Ok (du, res) /\
+    match res with
+    | None => d32_next du < 8 /\ exists accu, d32_target du = Ok accu /\ lenN acc <= lenN accu /\
+              (lenN acc <= c ->
+                 if lenN accu <=? c then b32_push_cap (Some c) d ch = Ok (du, None)
+                 else exists d', b32_push_cap (Some c) d ch = Ok (d', Some E_SHORTBUF))
+    | Some e => lenN acc <= c -> exists d' e', b32_push_cap (Some c) d ch = Ok (d', Some e')
+    end.
+Proof.
+  destruct d as [b n t]. cbn [d32_next d32_target]. intros Hn ->.
+  rewrite b32_push_sem, b32_push_cap_sem. destruct (val32 ch) as [v|].
+  2:{ eexists _, _. split; [reflexivity|]. intros _. eexists _, _. reflexivity. }
+  unfold b32_cont, b32_cont_cap. cbn [d32_buf d32_next d32_target].
+  destruct (buf8_set_ok b n v Hn) as [b' ->]. cbn [bind]. cbv [b32_group].
+  destruct (N.eqb_spec (n + 1) 8) as [E8|N8].
+  - rewrite fold_append_ok. cbn [d32_target target_err].
+    eexists _, _. split; [reflexivity|]. split; [cbn; lia|].
+    eexists. split; [reflexivity|]. split; [rewrite lenN_app; lia|]. intros Hc.
+    rewrite (fold_append_cap_some c _ acc Hc), lenN_app.
+    destruct (N.leb_spec (lenN acc + lenN (b32_octets b')) c); [reflexivity|]. eexists. reflexivity.
+  - cbn [d32_target target_err].
+    eexists _, _. split; [reflexivity|]. split; [cbn; lia|].
+    eexists. split; [reflexivity|]. split; [lia|]. intros Hc.
+    destruct (N.leb_spec (lenN acc) c); [reflexivity|lia].
+Qed.
+
+Lemma b32_cap_fin c d acc : d32_next d < 8 -> d32_target d = Ok acc ->
+  match b32_finalize d with
+  | Ok bs => lenN acc <= lenN bs /\
+             (lenN acc <= c -> if lenN bs <=? c then b32_finalize_cap (Some c) d = Ok bs
+                               else b32_finalize_cap (Some c) d = Err E_SHORTBUF)
+  | Err e => lenN acc <= c -> exists e', b32_finalize_cap (Some c) d = Err e'
+  | _ => False
+  end.
+Proof.
+  destruct d as [b n t]. cbn [d32_next d32_target]. intros Hn ->.
+  unfold b32_finalize, b32_finalize_cap. cbn [d32_target d32_next d32_buf].
+  assert (K : forall k,
+    match fold_left append (firstn k (b32_octets b)) (Ok acc) with
+    | Ok bs => lenN acc <= lenN bs /\
+               (lenN acc <= c -> if lenN bs <=? c
+                  then fold_left (append_cap (Some c)) (firstn k (b32_octets b)) (Ok acc) = Ok bs
+                  else fold_left (append_cap (Some c)) (firstn k (b32_octets b)) (Ok acc) = Err E_SHORTBUF)
+    | Err e => lenN acc <= c -> exists e', fold_left (append_cap (Some c)) (firstn k (b32_octets b)) (Ok acc) = Err e'
+    | _ => False
+    end).
+  { intros k. rewrite fold_append_ok. split; [rewrite lenN_app; lia|]. intros Hc.
+    rewrite (fold_append_cap_some c _ acc Hc), lenN_app.
+    destruct (N.leb_spec (lenN acc + lenN (firstn k (b32_octets b))) c); reflexivity. }
+  assert (C : n = 0 \/ n = 1 \/ n = 2 \/ n = 3 \/ n = 4 \/ n = 5 \/ n = 6 \/ n = 7) by lia.
+  destruct C as [-> | [-> | [-> | [-> | [-> | [-> | [-> | ->]]]]]]];
+    cbn [N.eqb Pos.eqb existsb b32_fin_short orb assoc b32_fin_partial];
+    try (intros _; eexists; reflexivity); try apply K.
+  split; [lia|]. intros Hc. destruct (N.leb_spec (lenN acc) c); [reflexivity|lia].
+Qed.
+
+Theorem b32_decode_cap_spec c s :
+  match b32_decode s with
+  | Ok bs => if lenN bs <=? c then b32_decode_cap (Some c) s = Ok bs
+             else b32_decode_cap (Some c) s = Err E_SHORTBUF
+  | Err e => exists e', b32_decode_cap (Some c) s = Err e'
+  | _ => False
+  end.
+Proof.
+  unfold b32_decode, b32_decode_cap. rewrite <- b32_decode_from_g.
+  apply (cap_sim dec32 b32_push (b32_push_cap (Some c)) b32_finalize (b32_finalize_cap (Some c))
+           (fun d => d32_next d < 8) d32_target c (b32_cap_push c) (b32_cap_fin c) s b32_new []);
+    [cbn; lia|reflexivity|unfold lenN; cbn; lia].
+Qed.
+
+(* ---- Base64 (the repaired push) ---- *)
+Definition inv64c (d : dec64) : Prop := d64_next d < 4 \/ d64_next d = 240.
+
+Ltac leb_cases c :=
+  repeat match goal with
+  | |- context [?a <=? c] => destruct (N.leb_spec a c)
+  end.
+Ltac fits_solve c L1 :=
+  repeat (progress (rewrite ?fits_spec, ?lenN_app, ?L1; leb_cases c; cbv beta iota));
+  first [lia | reflexivity | (eexists; reflexivity) | (eexists _, _; reflexivity)].
+
+Lemma b64_cap_cont c b n acc v : n < 4 ->
+  exists du res, b64_cont (mk64 b n (Ok acc)) v = Ok (du, res) /\
+    match res with
+    | None => inv64c du /\ exists accu, d64_target du = Ok accu /\ lenN acc <= lenN accu /\
+              (lenN acc <= c ->
+                 if lenN accu <=? c then b64_cont_cap (Some c) (mk64 b n (Ok acc)) v = Ok (du, None)
+                 else exists d', b64_cont_cap (Some c) (mk64 b n (Ok acc)) v = Ok (d', Some E_SHORTBUF))
+    | Some e => lenN acc <= c -> exists d' e', b64_cont_cap (Some c) (mk64 b n (Ok acc)) v = Ok (d', Some e')
+    end.
+Proof.
+  destruct b as [[[x0 x1] x2] x3]. intros Hn.
+  assert (C : n = 0 \/ n = 1 \/ n = 2 \/ n = 3) by lia.
+  destruct C as [-> | [-> | [-> | ->]]].
+  1-3: (eexists _, _; split; [reflexivity|]; split; [left; cbn; lia|];
+        eexists; split; [reflexivity|]; split; [lia|]; intros Hc;
+        destruct (N.leb_spec (lenN acc) c); [reflexivity|lia]).
+  rewrite cont_3. cbv zeta.
+  unfold b64_cont_cap, try_append.
+  cbn [d64_buf d64_next d64_target buf4_set N.eqb Pos.eqb bind N.add Pos.add].
+  cbv [b64_group b64_push_pad_val b64_push_eof]. cbn [N.eqb Pos.eqb Pos.succ].
+  assert (L1 : forall x, lenN [x] = 1) by reflexivity.
+  destruct (x2 =? 128); destruct (v =? 128); cbn [negb].
+  - (* x x = = *)
+    eexists _, _. split; [reflexivity|]. split; [right; reflexivity|].
+    eexists. split; [reflexivity|]. split; [rewrite lenN_app; lia|]. intros Hc. fits_solve c L1.
+  - (* x x = x : TrailingInput *)
+    eexists _, _. split; [reflexivity|]. intros Hc. fits_solve c L1.
+  - (* x x x = *)
+    eexists _, _. split; [reflexivity|]. split; [right; reflexivity|].
+    eexists. split; [reflexivity|]. split; [rewrite !lenN_app; lia|]. intros Hc. fits_solve c L1.
+  - (* x x x x *)
+    eexists _, _. split; [reflexivity|]. split; [left; cbn; lia|].
+    eexists. split; [reflexivity|]. split; [rewrite !lenN_app; lia|]. intros Hc. fits_solve c L1.
+Qed.
+
+Lemma b64_cap_push c d ch acc : inv64c d -> d64_target d = Ok acc ->
+  exists du res, b64_push_with true d ch = Ok (du, res) /\
+    match res with
+    | None => inv64c du /\ exists accu, d64_target du = Ok accu /\ lenN acc <= lenN accu /\
+              (lenN acc <= c ->
+                 if lenN accu <=? c then b64_push_cap (Some c) true d ch = Ok (du, None)
+                 else exists d', b64_push_cap (Some c) true d ch = Ok (d', Some E_SHORTBUF))
+    | Some e => lenN acc <= c -> exists d' e', b64_push_cap (Some c) true d ch = Ok (d', Some e')
+    end.
+Proof.
+  destruct d as [b n t]. unfold inv64c. cbn [d64_next d64_target]. intros Hi ->.
+  cbn [b64_push_with b64_push_cap d64_target].
+  destruct Hi as [Hn| ->].
+  2:{ rewrite (b64_push_at_eof (mk64 b 240 (Ok acc)) ch eq_refl),
+        (b64_push_char_cap_at_eof (Some c) (mk64 b 240 (Ok acc)) ch eq_refl).
+      eexists _, _. split; [reflexivity|]. intros _. eexists _, _. reflexivity. }
+  (* the continuation relation, lifted through the error-recording wrapper *)
+  assert (W : forall v,
+    exists du res,
+      match b64_cont (mk64 b n (Ok acc)) v with
+      | Ok (d', Some e) => Ok (mk64 (d64_buf d') (d64_next d') (Err e), Some e)
+      | other => other
+      end = Ok (du, res) /\
+      match res with
+      | None => inv64c du /\ exists accu, d64_target du = Ok accu /\ lenN acc <= lenN accu /\
+                (lenN acc <= c ->
+                   if lenN accu <=? c
+                   then match b64_cont_cap (Some c) (mk64 b n (Ok acc)) v with
+                        | Ok (d', Some e) => Ok (mk64 (d64_buf d') (d64_next d') (Err e), Some e)
+                        | other => other end = Ok (du, None)
+                   else exists d', match b64_cont_cap (Some c) (mk64 b n (Ok acc)) v with
+                                   | Ok (d', Some e) => Ok (mk64 (d64_buf d') (d64_next d') (Err e), Some e)
+                                   | other => other end = Ok (d', Some E_SHORTBUF))
+      | Some e => lenN acc <= c ->
+                  exists d' e', match b64_cont_cap (Some c) (mk64 b n (Ok acc)) v with
+                                | Ok (d', Some e) => Ok (mk64 (d64_buf d') (d64_next d') (Err e), Some e)
+                                | other => other end = Ok (d', Some e')
+      end).
+  { intros v. destruct (b64_cap_cont c b n acc v Hn) as (du & res & E & R). rewrite E.
+    destruct res as [e|].
+    - eexists _, _. split; [reflexivity|]. intros Hc. destruct (R Hc) as (d' & e' & ->). eauto.
+    - exists du, None. split; [reflexivity|]. destruct R as (I1 & accu & T & L & Q).
+      split; [exact I1|]. exists accu. split; [exact T|]. split; [exact L|]. intros Hc. specialize (Q Hc).
+      destruct (lenN accu <=? c); [rewrite Q; reflexivity|]. destruct Q as [d' ->]. eauto. }
+  rewrite b64_push_char_cap_sem by (cbn; lia).
+  destruct (N.eq_dec ch 61) as [->|Nc].
+  - rewrite b64_push_pad by (cbn; lia). cbn [d64_next N.eqb Pos.eqb].
+    destruct (n <? 2).
+    + eexists _, _. split; [reflexivity|]. intros _. eexists _, _. reflexivity.
+    + apply W.
+  - rewrite b64_push_sem by (cbn; auto; lia). destruct (N.eqb_spec ch 61); [contradiction|].
+    destruct (val64 ch) as [v|].
+    + apply W.
+    + eexists _, _. split; [reflexivity|]. intros _. eexists _, _. reflexivity.
+Qed.
+
+Lemma b64_cap_fin c d acc : inv64c d -> d64_target d = Ok acc ->
+  match b64_finalize d with
+  | Ok bs => lenN acc <= lenN bs /\
+             (lenN acc <= c -> if lenN bs <=? c then b64_finalize d = Ok bs else b64_finalize d = Err E_SHORTBUF)
+  | Err e => lenN acc <= c -> exists e', b64_finalize d = Err e'
+  | _ => False
+  end.
+Proof.
+  intros _ T. unfold b64_finalize. rewrite T.
+  destruct (N.land (d64_next d) b64_fin_mask =? 0); [|eauto].
+  split; [lia|]. intros Hc. destruct (N.leb_spec (lenN acc) c); [reflexivity|lia].
+Qed.
+
+Theorem b64_decode_cap_spec c s :
+  match b64_decode s with
+  | Ok bs => if lenN bs <=? c then b64_decode_cap (Some c) s = Ok bs
+             else b64_decode_cap (Some c) s = Err E_SHORTBUF
+  | Err e => exists e', b64_decode_cap (Some c) s = Err e'
+  | _ => False
+  end.
+Proof.
+  unfold b64_decode, b64_decode_cap. change b64_push_sticky with true.
+  rewrite <- b64_decode_from_g.
+  apply (cap_sim dec64 (b64_push_with true) (b64_push_cap (Some c) true) b64_finalize b64_finalize
+           inv64c d64_target c (b64_cap_push c) (b64_cap_fin c) s b64_new []);
+    [left; cbn; lia|reflexivity|unfold lenN; cbn; lia].
+Qed.
+
+Example decode_cap_examples :
+  b64_decode_cap (Some 3) [90; 109; 57; 118] = Ok [102; 111; 111] /\
+  b64_decode_cap (Some 2) [90; 109; 57; 118] = Err E_SHORTBUF /\
+  b32_decode_cap (Some 0) [67; 79] = Err E_SHORTBUF /\ b32_decode_cap (Some 1) [67; 79] = Ok [102] /\
+  b16_decode_cap (Some 1) [70; 48; 48; 70] = Err E_SHORTBUF.
+Proof. vm_compute. repeat split. Qed.
+
+Definition cap_decode_stmt (dec : list N -> outcome (list N)) (decc : option N -> list N -> outcome (list N))
+  (c : N) (s : list N) : Prop :=
+  match dec s with
+  | Ok bs => if lenN bs <=? c then decc (Some c) s = Ok bs else decc (Some c) s = Err E_SHORTBUF
+  | Err e => exists e', decc (Some c) s = Err e'
+  | _ => False
+  end.
+
